@@ -2,11 +2,14 @@ package main
 
 // which rules serve which property (DESIGN.md section 4)
 func init() {
-	serve("C01", "T1", "T2", "T3", "T6", "T8")
-	serve("C02", "B1", "B1n", "B2", "B3", "B4")
-	serve("C03", "F1", "F2", "T6", "B4")
+	serve("C01", "T1", "T2", "T3", "T6", "T8", "B3b")
+	serve("C02", "B1", "B1n", "B2", "B3", "B3b", "B4")
+	serve("C03", "F1", "F2", "T6", "B4", "B3b", "G6r")
 	serve("CXX", "T4", "T5", "T6")
+	serve("CG", "G6", "G6r", "B3b")
+	serve("C11", "R1", "R2", "R4")
+	serve("CR", "R1", "R2", "R4")
 	serve("CL", "L1", "L2", "L3", "L4")
 	serve("CB", "T8", "T3", "F1", "F2", "B1", "B2", "B3", "B4", "B1n", "T1", "T2", "T4", "T5", "T6")
-	serve("C06", "T1", "T2", "T3", "T4", "T5")
+	serve("C06", "T1", "T2", "T3", "T4", "T5", "B2", "B3")
 }
